@@ -17,8 +17,13 @@ use std::sync::atomic::{AtomicU64, Ordering};
 pub struct NeighbourPool {
     inner: Arc<dyn MemoryPool>,
     neighbour: Mutex<Option<MemoryReservation>>,
-    /// (at the n-th growth request of the query, neighbour resizes to this many bytes)
-    script: Vec<(u64, usize)>,
+    /// (at the n-th growth request of the query, neighbour resizes to this many bytes); with a
+    /// duration: the neighbour takes all free memory except that many bytes, and returns to its
+    /// previous size `dur` requests later
+    script: Vec<(u64, usize, Option<u64>)>,
+    limit: usize,
+    /// (request number at which a squeeze ends, size to return to)
+    restore: Mutex<Vec<(u64, usize)>>,
     calls: AtomicU64,
     pub refused: AtomicU64,
     pub granted: AtomicU64,
@@ -26,7 +31,7 @@ pub struct NeighbourPool {
 }
 
 impl NeighbourPool {
-    pub fn new(kind: &str, limit: usize, script: Vec<(u64, usize)>) -> Arc<Self> {
+    pub fn new(kind: &str, limit: usize, script: Vec<(u64, usize, Option<u64>)>) -> Arc<Self> {
         let inner: Arc<dyn MemoryPool> = match kind {
             "fair" => Arc::new(FairSpillPool::new(limit)),
             "unbounded" => Arc::new(UnboundedMemoryPool::default()),
@@ -41,6 +46,8 @@ impl NeighbourPool {
             inner,
             neighbour: Mutex::new(neighbour),
             script,
+            limit,
+            restore: Mutex::new(vec![]),
             calls: AtomicU64::new(0),
             refused: AtomicU64::new(0),
             granted: AtomicU64::new(0),
@@ -56,8 +63,34 @@ impl NeighbourPool {
     }
     fn tick(&self) {
         let n = self.calls.fetch_add(1, Ordering::Relaxed);
-        for (at, target) in &self.script {
+        // squeezes that end now
+        let due: Vec<(u64, usize)> = {
+            let mut g = self.restore.lock();
+            let (now, later): (Vec<_>, Vec<_>) = g.drain(..).partition(|(at, _)| *at <= n);
+            *g = later;
+            now
+        };
+        for (_, back_to) in due {
+            if let Some(r) = self.neighbour.lock().as_ref() {
+                if r.size() > back_to {
+                    r.shrink(r.size() - back_to);
+                    sim::probe("probe.neighbour_released_squeeze");
+                }
+            }
+        }
+        for (at, target, dur) in &self.script {
             if *at == n {
+                if let Some(d) = dur {
+                    if let Some(r) = self.neighbour.lock().as_ref() {
+                        let free = self.limit.saturating_sub(self.inner.reserved());
+                        let take = free.saturating_sub(*target);
+                        if take > 0 && r.try_grow(take).is_ok() {
+                            sim::probe("probe.neighbour_squeezed");
+                            self.restore.lock().push((n + d, r.size() - take));
+                        }
+                    }
+                    continue;
+                }
                 if let Some(r) = self.neighbour.lock().as_ref() {
                     // the neighbour itself is a well-behaved consumer: it only takes what is free
                     if *target > r.size() {
